@@ -167,6 +167,129 @@ theorem C02_block_delivers_new_ancestry (parents : Nat → List Nat) (fuel : Nat
   · exact absurd h1 hn
   · exact h1
 
+/-! ### termination: the DFS finishes on every finite DAG within an explicit number of iterations -/
+
+/-- number of events below `n` that are not confirmed yet -/
+def unconf (n : Nat) (c : List Nat) : Nat := (List.range n).countP (fun x => !c.contains x)
+
+/-- counting with a pointwise smaller predicate that is moreover false at some `w ∈ l` where the
+    larger one is true gives a strictly smaller count -/
+theorem countP_drop (p q : Nat → Bool) (w : Nat) (l : List Nat) (hw : w ∈ l)
+    (hpq : ∀ x, p x = true → q x = true) (hpw : p w = false) (hqw : q w = true) :
+    l.countP p + 1 ≤ l.countP q := by
+  induction l with
+  | nil => cases hw
+  | cons x xs ih =>
+    rw [List.countP_cons, List.countP_cons]
+    by_cases hxw : x = w
+    · have hm : xs.countP p ≤ xs.countP q := List.countP_mono_left (fun y _ hy => hpq y hy)
+      rw [hxw, hpw, hqw]
+      simp only [if_true, Bool.false_eq_true, if_false]
+      omega
+    · have hw' : w ∈ xs := by
+        rcases List.mem_cons.1 hw with h | h
+        · exact absurd h.symm hxw
+        · exact h
+      have h1 := ih hw'
+      cases hp : p x
+      · cases hq : q x
+        · simp only [Bool.false_eq_true, if_false]; omega
+        · simp only [Bool.false_eq_true, if_false, if_true]; omega
+      · rw [hpq x hp]
+        simp only [if_true]; omega
+
+theorem unconf_le (n : Nat) (c : List Nat) : unconf n c ≤ n := by
+  unfold unconf
+  have := List.countP_le_length (p := fun x => !c.contains x) (l := List.range n)
+  simpa using this
+
+theorem unconf_drop (n w : Nat) (c : List Nat) (hw : w < n) (hc : w ∉ c) : unconf n (w :: c) + 1 ≤ unconf n c :=
+  countP_drop _ _ w (List.range n) (List.mem_range.2 hw)
+    (fun x hx => by
+      simp only [List.contains_cons, Bool.not_or, Bool.and_eq_true] at hx
+      exact hx.2)
+    (by simp) (by simpa using hc)
+
+/-- The loop measure `|stack| + (k+1)·(unconfirmed events < n)` drops by at least one per
+    iteration: a confirmed top of stack is popped; an unconfirmed one is confirmed (each event at
+    most once) and replaced by its at most `k` parents. -/
+theorem dfs_terminates (parents : Nat → List Nat) (n k : Nat)
+    (hpar : ∀ w, w < n → ∀ p ∈ parents w, p < n) (hk : ∀ w, w < n → (parents w).length ≤ k)
+    (fuel : Nat) (stack c out : List Nat) (hst : ∀ s ∈ stack, s < n)
+    (hf : stack.length + (k + 1) * unconf n c ≤ fuel) :
+    ∃ res, dfs parents fuel stack c out = some res := by
+  induction fuel generalizing stack c out with
+  | zero =>
+    cases stack with
+    | nil => exact ⟨(c, out), by simp [dfs]⟩
+    | cons w st => simp at hf
+  | succ f ih =>
+    cases stack with
+    | nil => exact ⟨(c, out), by simp [dfs]⟩
+    | cons w st =>
+      simp only [dfs]
+      have hwn : w < n := hst w List.mem_cons_self
+      by_cases hw : c.contains w = true
+      · rw [if_pos hw]
+        apply ih st c out (fun s hs => hst s (List.mem_cons_of_mem _ hs))
+        simp only [List.length_cons] at hf
+        omega
+      · rw [if_neg hw]
+        have hwc : w ∉ c := by simpa using hw
+        apply ih
+        · intro s hs
+          rcases List.mem_append.1 hs with h1 | h1
+          · exact hpar w hwn s (List.mem_reverse.1 h1)
+          · exact hst s (List.mem_cons_of_mem _ h1)
+        · have hd := unconf_drop n w c hwn hwc
+          have hm : (k + 1) * (unconf n (w :: c) + 1) ≤ (k + 1) * unconf n c := Nat.mul_le_mul_left _ hd
+          rw [Nat.mul_add, Nat.mul_one] at hm
+          have hl := hk w hwn
+          simp only [List.length_cons, List.length_append, List.length_reverse] at hf ⊢
+          generalize (k + 1) * unconf n (w :: c) = A at *
+          generalize (k + 1) * unconf n c = B at *
+          omega
+
+/-- C02 (termination): on a DAG whose events are positions in a parents-first history (every
+    parent has a smaller number than its child), with at most `k` parents per event, the
+    explicit-stack DFS of `confirmEvents` started at an Atropos `a < n` finishes within
+    `n·(k+1) + 1` loop iterations, whatever the confirmed set is. In particular it finishes with
+    any fuel `≥ (n+1)·(k+1) + 1`. -/
+theorem C02_confirm_terminates (parents : Nat → List Nat) (n k fuel : Nat) (c0 : List Nat) (a : Nat)
+    (hrank : ∀ w p, p ∈ parents w → p < w) (hk : ∀ w, w < n → (parents w).length ≤ k)
+    (ha : a < n) (hfuel : n * (k + 1) + 1 ≤ fuel) :
+    ∃ res, confirmEvents parents fuel c0 a = some res := by
+  unfold confirmEvents
+  apply dfs_terminates parents n k (fun w hw p hp => Nat.lt_trans (hrank w p hp) hw) hk
+  · intro s hs
+    simp at hs; subst hs; exact ha
+  · have h1 : (k + 1) * unconf n c0 ≤ (k + 1) * n := Nat.mul_le_mul_left _ (unconf_le n c0)
+    rw [Nat.mul_comm (k + 1) n] at h1
+    simp only [List.length_cons, List.length_nil]
+    generalize (k + 1) * unconf n c0 = A at *
+    generalize n * (k + 1) = B at *
+    omega
+
+theorem C02_confirm_terminates' (parents : Nat → List Nat) (n k fuel : Nat) (c0 : List Nat) (a : Nat)
+    (hrank : ∀ w p, p ∈ parents w → p < w) (hk : ∀ w, w < n → (parents w).length ≤ k)
+    (ha : a < n) (hfuel : (n + 1) * (k + 1) + 1 ≤ fuel) :
+    ∃ res, confirmEvents parents fuel c0 a = some res := by
+  apply C02_confirm_terminates parents n k fuel c0 a hrank hk ha
+  have : n * (k + 1) ≤ (n + 1) * (k + 1) := Nat.mul_le_mul_right _ (Nat.le_succ n)
+  omega
+
+/-- C02 (total correctness of one block): with enough fuel the run finishes AND delivers exactly
+    the ancestors-or-self of the Atropos not confirmed before, each once, leaving an
+    ancestor-closed confirmed set = old set + delivered events. -/
+theorem C02_block_total (parents : Nat → List Nat) (n k fuel : Nat) (c0 : List Nat) (a : Nat)
+    (hrank : ∀ w p, p ∈ parents w → p < w) (hk : ∀ w, w < n → (parents w).length ≤ k)
+    (ha : a < n) (hfuel : n * (k + 1) + 1 ≤ fuel) (hclosed : Closed parents c0) :
+    ∃ c' out, confirmEvents parents fuel c0 a = some (c', out) ∧
+      (∀ x, x ∈ out ↔ (Reach parents a x ∧ x ∉ c0)) ∧ out.Nodup ∧
+      (∀ x, x ∈ c' ↔ (x ∈ c0 ∨ x ∈ out)) ∧ Closed parents c' := by
+  obtain ⟨⟨c', out⟩, h⟩ := C02_confirm_terminates parents n k fuel c0 a hrank hk ha hfuel
+  exact ⟨c', out, h, C02_block_delivers_new_ancestry parents fuel c0 a c' out hclosed h⟩
+
 /-! ### frames are consecutive -/
 open Model.Election Model.Orderer
 
